@@ -156,7 +156,7 @@ def dump_sqlite(path: str, prefix: str | None = None) -> dict:
     """Every row of every table (optionally only tables whose name starts with `prefix`)."""
     import sqlite3
 
-    conn = sqlite3.connect(path, timeout=0)
+    conn = sqlite3.connect(path, timeout=10)
     out = {}
     try:
         for (name,) in conn.execute("SELECT name FROM sqlite_master WHERE type='table' ORDER BY name").fetchall():
